@@ -8,21 +8,23 @@ import (
 
 // c20SX is the symbolic executor (see c20_val.go).
 type c20SX struct {
-	cx      *c20Ctx
-	info    *types.Info
-	root    *FuncInfo
-	opaque  func(fn *types.Func) string // same-package function modelled as an event of this kind instead of being inlined ("" = inline)
-	status  *int64                      // concrete StatusCode of the response returned by Client.Do (getFromAPI world)
-	stack   []*types.Func
-	frames  []c20Frame     // one per function or closure being executed (innermost last)
-	lits    []*ast.FuncLit // function literals being executed (recursion guard)
-	tick    int
-	zeroing []types.Type         // struct types being zero-filled (depth guard)
-	birth   map[types.Object]int // when a variable was last declared or bound as a parameter (see changed)
-	nextID  int
-	budget  int
-	sep     string
-	preset  map[int]c20V // root parameters bound to given values instead of symbolic inputs (finite-domain runs)
+	cx           *c20Ctx
+	info         *types.Info
+	root         *FuncInfo
+	opaque       func(fn *types.Func) string // same-package function modelled as an event of this kind instead of being inlined ("" = inline)
+	status       *int64                      // concrete StatusCode of the response returned by Client.Do (getFromAPI world)
+	stack        []*types.Func
+	frames       []c20Frame     // one per function or closure being executed (innermost last)
+	lits         []*ast.FuncLit // function literals being executed (recursion guard)
+	tick         int
+	labels       []string             // labels of the loops being executed (innermost last, "" for none)
+	pendingLabel string               // label of the statement about to be executed
+	zeroing      []types.Type         // struct types being zero-filled (depth guard)
+	birth        map[types.Object]int // when a variable was last declared or bound as a parameter (see changed)
+	nextID       int
+	budget       int
+	sep          string
+	preset       map[int]c20V // root parameters bound to given values instead of symbolic inputs (finite-domain runs)
 }
 
 // c20Frame describes the function or closure whose body is being executed.
@@ -182,7 +184,7 @@ func (x *c20SX) assign(lhs ast.Expr, v c20V, st *c20St) {
 				if x.info.Defs[id] != nil {
 					x.born(o)
 				}
-				st.env[o] = v
+				st.env[o] = x.toIface(v, o.Type())
 				return
 			}
 		}
@@ -222,7 +224,9 @@ func (x *c20SX) zero(t types.Type) c20V {
 			}
 		}
 		return c20V{k: c20kNil}
-	case *types.Pointer, *types.Interface, *types.Map, *types.Chan, *types.Signature:
+	case *types.Pointer:
+		return c20V{k: c20kNil, typ: t} // a typed nil pointer (see toIface)
+	case *types.Interface, *types.Map, *types.Chan, *types.Signature:
 		return c20V{k: c20kNil}
 	case *types.Struct:
 		if c20IsBuilderType(t) {
